@@ -900,6 +900,33 @@ impl Program {
     }
 }
 
+impl Program {
+    /// a value as Cairo text (arguments of a replay `main`)
+    pub fn val_cairo(&self, t: &Ty, v: &Val) -> String {
+        match (t, v) {
+            (Ty::Int(_) | Ty::Felt, Val::Int(z)) => self.lit(t, z),
+            (Ty::Bool, Val::Bool(b)) => format!("{b}"),
+            (Ty::Tup(ts), Val::Tup(vs)) => {
+                let xs: Vec<String> = ts.iter().zip(vs).map(|(t, v)| self.val_cairo(t, v)).collect();
+                if xs.len() == 1 { format!("({},)", xs[0]) } else { format!("({})", xs.join(", ")) }
+            }
+            _ => "?".into(),
+        }
+    }
+    /// the program followed by `fn main` calling the entry function on `args` (for cairo-run)
+    pub fn replay_source(&self, args: &[Val]) -> String {
+        let f = &self.fns[self.entry()];
+        let a: Vec<String> = f.params.iter().zip(args).map(|(p, v)| self.val_cairo(&p.ty, v)).collect();
+        format!(
+            "{}fn main() -> {} {{\n    {}({})\n}}\n",
+            self.cairo(),
+            self.ty_cairo(&f.ret),
+            self.fn_name(self.entry()),
+            a.join(", ")
+        )
+    }
+}
+
 /// A run-time value of the subset (arguments of entry functions).
 #[derive(Clone, PartialEq, Eq, Hash, Debug)]
 pub enum Val {
